@@ -473,7 +473,11 @@ DoParse ==
     /\ Reading("ready") /\ ~skip /\ Head1.t = "P"
     /\ Consume
     /\ LET q == Head1.q IN
-       IF q.parse = "err"
+       IF q.parse = "blank"
+       THEN \* a Parse whose query text is empty or blank is handed to the parser like any other text (the scripted
+            \* parser does not know it: q = -1, and fails); nothing is stored
+            emit' = <<Cb(WithCtx([name |-> "parse", q |-> -1])), Rv(ErrAny)>> /\ skip' = TRUE /\ UNCHANGED stmts
+       ELSE IF q.parse = "err"
        THEN emit' = <<ParseCb(q), Rv(ErrRec(q.perr))>> /\ skip' = TRUE /\ UNCHANGED stmts
        ELSE IF Len(q.stmts) # 1
        THEN emit' = <<ParseCb(q), Rv(ErrAny)>> /\ skip' = TRUE /\ UNCHANGED stmts
